@@ -20,6 +20,10 @@ CTYPE = "nat * list (list Q) * list Q * list Q * nat * (list Q * bool * nat * na
 OK_SRC = ("fun c => let '(n, M, q, d, mi, (z, su, st, ni)) := c in "
           "let '(z', su', st', ni') := lcp_lemke n M q d mi lp_TOL_PIV lp_TOL_RATIO_DIFF in "
           "Bool.eqb su su' && Nat.eqb st st' && Nat.eqb ni ni' && Qs_close (1 # 1000000000) z' z")
+CTYPE_F = "nat * list (list float) * list float * list float * nat * (list float * bool * nat * nat)"
+OK_F = ("fun c => let '(n, M, q, d, mi, (z, su, st, ni)) := c in "
+        "let '(z', su', st', ni') := lcp_lemke n M q d mi lp_TOL_PIV_f lp_TOL_RATIO_DIFF_f in "
+        "Bool.eqb su su' && Nat.eqb st st' && Nat.eqb ni ni' && Fs_eqb z' z")
 OK_TOL0 = ("fun c => let '(n, M, q, d, mi, (z, su, st, ni)) := c in "
            "let '(z', su', st', ni') := lcp_lemke n M q d mi 0%Q 0%Q in "
            "Bool.eqb su su' && Nat.eqb st st' && Nat.eqb ni ni' && Qs_close (1 # 1000000000) z' z")
@@ -297,6 +301,16 @@ def coq_case(case, out):
                tup(qlist([frac(x) for x in z]), blit(su), natlit(st), natlit(ni)))
 
 
+def coq_case_f(case, out):
+    n = case["n"]
+    z, su, st, ni = out
+    d = case["d"] or [1.0] * n
+    return tup(natlit(n), flist2([[float(x) for x in r] for r in case["M"]]), flist([float(x) for x in case["q"]]),
+               flist([float(x) for x in d]),
+               natlit(case["max_iter"]) if case["max_iter"] < 5000 else "(Z.to_nat %d)" % case["max_iter"],
+               tup(flist(z), blit(su), natlit(st), natlit(ni)))
+
+
 def normalise(case):
     case = dict(case)
     case["M"] = [[Fraction(x) for x in r] for r in case["M"]]
@@ -309,12 +323,12 @@ def normalise(case):
 def run(ctx):
     thorough = ctx.tier == "thorough"
     ctx.proofs()
-    N = 2600 if thorough else 650
-    NR = 500 if thorough else 120
+    N = 2600 if thorough else 520
+    NR = 500 if thorough else 100
     cases = [normalise(c) for c in FIXED]
     cases += [gen_case(ctx.rng, thorough) for _ in range(N)]
     cases += [gen_real_case(ctx.rng) for _ in range(NR)]
-    coq_cases, outs = [], []
+    coq_cases, coq_cases_f, outs = [], [], []
     for case in cases:
         case["classes"] = classify(case["M"])
         out = run_impl(case)
@@ -340,14 +354,22 @@ def run(ctx):
         for kind, what in oracle(ctx, case, out):
             ctx.fail(kind, what, case_input(case), {"z": z, "success": su, "status": st, "num_iter": ni}, None)
         coq_cases.append(coq_case(case, out))
-    bad = ctx.coq_check("lcp_lemke", IMPORTS, CTYPE, OK_SRC, coq_cases, chunk=60)
+        coq_cases_f.append(coq_case_f(case, out))
+    # (1) bit-exact: binary64 instance of the model against the jitted implementation
+    badF = ctx.coq_check("lcp_lemke_float_bitexact", IMPORTS, CTYPE_F, OK_F, coq_cases_f, chunk=100)
+    for i in badF:
+        model = ctx.coq_eval(IMPORTS, "let '(n, M, q, d, mi, _) := %s in lcp_lemke n M q d mi lp_TOL_PIV_f lp_TOL_RATIO_DIFF_f" % coq_cases_f[i])
+        ctx.mismatch("C11.Model.lcp_lemke (binary64 instance) vs optimize.lcp_lemke: z, status, num_iter bit-exact",
+                     case_input(cases[i]), dict(zip(("z", "success", "status", "num_iter"), outs[i])), model[:1500])
+    # (2) exact arithmetic (the instance the theorems are about), tolerances of the source
+    bad = ctx.coq_check("lcp_lemke_exactQ", IMPORTS, CTYPE, OK_SRC, coq_cases, chunk=60)
     for i in bad:
         case = cases[i]
         d = case["d"] or [Fraction(1)] * case["n"]
         mi = natlit(case["max_iter"]) if case["max_iter"] < 5000 else "(Z.to_nat %d)" % case["max_iter"]
         model = ctx.coq_eval(IMPORTS, "lcp_lemke %s %s %s %s %s lp_TOL_PIV lp_TOL_RATIO_DIFF" % (
             natlit(case["n"]), qlist2(case["M"]), qlist(case["q"]), qlist(d), mi))
-        ctx.mismatch("C11.Model.lcp_lemke vs optimize.lcp_lemke (status, success, num_iter exact; z within 1e-9)",
+        ctx.mismatch("C11.Model.lcp_lemke (exact Q instance) vs optimize.lcp_lemke (status, success, num_iter exact; z within 1e-9)",
                      case_input(case), dict(zip(("z", "success", "status", "num_iter"), outs[i])), model[:1500])
     # the theorems are about tolerance 0: on exact (integer/dyadic) data the run with tolerance 0 must coincide
     ex = [i for i, c in enumerate(cases) if not c["real"]]
